@@ -17,6 +17,10 @@ CLAIMS = {
    text="Structural clauses of the server state machine decided on every run for all paths of all handlers: session calls only in permitted states (abstract interpretation of Conn.state over the 5 states), credentials only after canAuth()==true (truth table evaluated exhaustively), state writes only after the enabling backend call succeeded and only along RFC 9051 transitions, no command read in Logout, unknown pre-auth command ends in BYE, dispatch table exhaustive. 'other' because these are necessary structural conditions proven statically, not a proof of the whole behaviour (backends are opaque).",
    technique="abstract interpretation of the connection-state field over go/ssa (may-sets, edge refinement, interprocedural) + must-pass-through gate dataflow + exhaustive truth-table evaluation of canAuth",
    design="§4 C05"),
+ "C06": dict(
+   text="Structural clauses of server robustness, for all paths: one deferred Session.Close covering every exit (returns and panics) after NewSession succeeded; recover in every server goroutine and deferred connection close/unregister; buffered-literal check installed on every server decoder and refusing every size > 4096 (evaluated); APPEND limit dominating accept/read/hand-over of the literal; every input-driven recursion cycle of the call graph depth-bounded (Decoder.List's guard checked, or a capped strictly increasing counter proven around every cycle); IDLE goroutine release and buffered result channel; wire-supplied integers never summed unguarded into a slice bound and compared with a length before use as a bound; every FETCH response writer closed on all paths (interprocedural hand-over summaries). 'other': these are necessary conditions; absence of every panic for every byte stream is not decided.",
+   technique="call-graph SCC analysis with ranking-function recognition, must-dataflow pairing rules (defer/close/recover), finite-domain evaluation of the literal cap, taint of wire-sourced integer fields into slice bounds",
+   design="§4 C06"),
  "C19": dict(
    text="SearchCriteria.And is evaluated as an abstract function over order types (each zero-means-unset scalar touched only through comparisons/zero tests/copies, so one representative per ordering decides all values): 6 fields x 9 orderings exhaustive; every field merged; list fields are same-field concatenations; the server's SEARCH parser appends list keys to their own field and folds scalar keys only through And. 'other': the evaluation is exhaustive over the abstract domain and the structural rules cover all sites, but a backend's matcher is outside the analysis.",
    technique="finite-domain abstract evaluation of And over order types on the typed AST + AST/SSA who-may-write rules on SearchCriteria fields",
